@@ -48,3 +48,18 @@ def Bucket.crashReopen (b : Bucket) (cut : Nat) : Bucket :=
   b.openFrom (b.live.recs.takeWhile (fun p => p.off + p.size ≤ cut))
 
 end SierraModel.Store
+
+namespace SierraModel.Store
+
+/-- reopen after a crash inside the creation of the NEXT segment (its file exists but is blank):
+the blank segment is recreated and becomes the live one; the previous live segment — fully synced
+by the rollover that was in progress — is now a sealed segment whose indexes are rebuilt. -/
+def Bucket.reopenBlankNext (b : Bucket) : Bucket :=
+  { b with
+    sealed := (b.sealed.map (fun s => { s with index := hydrate s.recs })) ++
+              [{ id := b.live.id, recs := b.live.recs, index := hydrate b.live.recs }],
+    live := { id := b.live.id + 1, recs := [], writeOff := SEGMENT_HEADER_SIZE, durable := SEGMENT_HEADER_SIZE,
+              index := [], pending := [], watch := SEGMENT_HEADER_SIZE },
+    nextSeq := [] }
+
+end SierraModel.Store
